@@ -366,6 +366,25 @@ def translate(repo):
                "  mapM gen_h_diagnostics_entry dm.")
     assert d == {"index": "key", "uri": "key", "to_proto": "diagnostic"}
     out += ["", "End Gen.", ""]
+    # how URIs are made and consumed: only through UrlExt, which is Url::from_file_path / Url::to_file_path
+    vf = strip_comments(read(repo, "crates/lsp/src/vfs.rs"))
+    vfns = all_fns(vf, "vfs.rs")
+    impl = [f for f in vfns.get("from_file_path", []) if f.body.strip()]
+    if len(impl) != 1 or norm(impl[0].body) != 'Url::from_file_path(&path.0).expect("failed to convert file path to url")':
+        raise TranslateError("vfs.rs: UrlExt::from_file_path is not `Url::from_file_path(&path.0).expect(..)`: %s" % (
+            norm(impl[0].body)[:160] if impl else "not found"))
+    impl = [f for f in vfns.get("to_file_path", []) if f.body.strip()]
+    if len(impl) != 1 or norm(impl[0].body) != 'self.to_file_path() .expect("failed to convert url to file path") .as_path() .into()':
+        raise TranslateError("vfs.rs: UrlExt::to_file_path is not `self.to_file_path().expect(..).as_path().into()`: %s" % (
+            norm(impl[0].body)[:160] if impl else "not found"))
+    for rel, src in (("server.rs", tr.srv), ("to_proto.rs", tp_src), ("from_proto.rs", tr.fp)):
+        if re.search(r"Url::parse|Url::from_directory_path|\.set_path\(|\.join\(|uri\.path\(\)|\.path\(\)\.into\(\)|format!\(\s*\"file:", src):
+            raise TranslateError("%s: a URI is built or taken apart without UrlExt" % rel)
+    sfc = norm(tr.fn("server.rs", "set_file_content").body)
+    if not re.match(r"let path = UrlExt::to_file_path\(uri\);", sfc) or \
+            not re.search(r"vfs\.set_open_document\(path\.clone\(\), text\.to_string\(\)\); let file_id = vfs\.assign_or_get_file_id\(path\);", sfc):
+        raise TranslateError("server.rs: set_file_content: the editor buffer and the file id are not keyed by the SAME "
+                             "decoded path `UrlExt::to_file_path(uri)`")
     # nothing else in server.rs converts
     srv = tr.srv
     n_tp = len(re.findall(r"to_proto::[a-z_]+\s*\(|to_proto::[a-z_]+\)", srv))
